@@ -66,7 +66,7 @@ CLAIMED = {
    note='bitstring packing = IEEE-754; kvfile ordered by key bytes; int/Decimal -> double conversion is monotone but not injective above 2^53 (listed finding); the empty string is null for Table Schema and not a key',
    ref='6/C12'),
  'C13': dict(
-   technique='Lean 4 proof (limiter = take n incl. 0; strip removes only surrounding whitespace; de-duplicated headers are unique for every header list and format, by a 7-clause loop invariant) + hdr/wrap correspondence + independent csv.reader oracle + wrapper-chain theorems (cast, strip, limit as lazy generators) with the order read from the source AST',
+   technique='Lean 4 proof (limiter = take n incl. 0; strip removes only surrounding whitespace; de-duplicated headers are unique for every header list and format, by a 7-clause loop invariant) + hdr/wrap correspondence + independent csv.reader oracle + wrapper-chain theorems (cast, strip, limit as lazy generators) with the order read from the source AST + translator tie (Tie_limiter / Tie_limiter_lazy: load.limiter, re-translated from the working tree on every run, yields exactly the first n rows and never asks the producer for row n+1) + pyeval correspondence of limiter and stripper',
    text='C13_limit, C13_strip_only_whitespace and C13_dedup_unique hold for all tables / cells / header lists (headers that already look like generated names included). Real load() runs over generated CSV files and option combinations are compared with an independent csv.reader pass with the wrapper semantics applied, the real headers with the model of rename_duplicate_headers, the real rows with the model limiter/stripper, and package / (descriptor, iterators) sources with the selector specification.',
    note='tabulator parsing and Schema.infer are third-party (parse faithfulness by comparison only); schema casting is shared with C14; the `while True` of the numbering is modelled with fuel (termination by distinct candidates is argued, not proved)',
    ref='6/C13'),
